@@ -231,11 +231,41 @@ var ProfileC05 = &Profile{
 	},
 }
 
+// c03Gov: governance changes a pool's own parameters while it is being traded: the pricing mode (oracle-priced <->
+// constant-product) or the swap fee. Always as a real proposal, i.e. executed by the gov end-blocker between the block's
+// transactions and the execution of its queued swaps.
+func c03Gov(h *History, g *G) []EnvAction {
+	if g.Int("c03gov?", 0, 4) != 0 || len(h.Cur.Pools) == 0 {
+		return nil
+	}
+	p := h.Cur.Pools[g.Pick("c03gov/pool", len(h.Cur.Pools))]
+	pp := p.PoolParams
+	if g.Int("c03gov/what", 0, 3) > 0 {
+		pp.UseOracle = !pp.UseOracle
+	} else {
+		pp.SwapFee = sdkmath.LegacyMustNewDecFromStr([]string{"0", "0.001", "0.003", "0.02"}[g.Pick("c03gov/fee", 4)])
+	}
+	msg := &ammtypes.MsgUpdatePoolParams{Authority: GovAddr(), PoolId: p.PoolId, PoolParams: pp}
+	hd := h.W.App.MsgServiceRouter().Handler(msg)
+	if hd == nil {
+		return nil
+	}
+	cctx, _ := h.W.SetupCtx().CacheContext()
+	if err := safeCall(func() error { _, e := hd(cctx, msg); return e }); err != nil {
+		h.Labels["c03-gov-refused"]++
+		return nil
+	}
+	h.Labels["c03-gov-pool-params-proposals"]++
+	e := h.W.GovEnv(msg)
+	e.Args["deliver"] = "proposal"
+	return []EnvAction{e}
+}
+
 // chain-level part of C03: swap-dominated histories (several swaps per block against the same pools, both
 // directions and forms), few price moves, almost no perpetual exposure
 var ProfileC03 = &Profile{
 	MultiMsg: true,
-	ID:       "C03", Name: "swap-value", MinBlocks: 6, MaxBlocks: 40, MaxTxs: 6, Spec: withModestUser(withSkew(specDefault)), Check: CheckC03Chain,
+	ID:       "C03", Name: "swap-value", MinBlocks: 6, MaxBlocks: 40, MaxTxs: 6, Spec: withModestUser(withSkew(specDefault)), Check: CheckC03Chain, PreBlock: c03Gov,
 	Weights: map[string]int{"amm.swap_in": 14, "amm.swap_out": 14, "amm.swap_in_2hop": 4, "amm.swap_out_2hop": 4, "amm.swap_by_denom": 3, "amm.join": 4, "amm.exit": 4,
 		"oracle.feed_price": 2, "perpetual.open": 1, "perpetual.close": 2, "leveragelp.open": 1, "bank.send_to_pool": 1, "amm.feed_external_liquidity": 3, "tier.set_portfolio": 3},
 	Rule: "history with >=3 judged pool-blocks (only swaps/joins/exits, unchanged prices, no perpetual exposure) and >=1 block with >=2 successful swaps",
